@@ -68,20 +68,37 @@ def eval_const_expr(t: Term):
         raise NotImplementedError
     return eval_hol_expr(t)
 
+def compare_const_expr(t1: Term, t2: Term):
+    """Compare the values of two constant terms.
+
+    Returns -1, 0 or 1. If one of the values is known only approximately
+    (as a floating-point number), the result is None unless the two values
+    are clearly apart.
+
+    """
+    v1, v2 = eval_const_expr(t1), eval_const_expr(t2)
+    if isinstance(v1, float) or isinstance(v2, float):
+        if t1 == t2:
+            return 0
+        v1, v2 = float(v1), float(v2)
+        if abs(v1 - v2) <= 1e-9 * max(1.0, abs(v1), abs(v2)):
+            return None
+    return (v1 > v2) - (v1 < v2)
+
 def eval_inequality_expr(t):
     """Evaluate inequality."""
     if t.is_equals():
-        return eval_const_expr(t.arg1) == eval_const_expr(t.arg)
+        return compare_const_expr(t.arg1, t.arg) == 0
     elif t.is_not() and t.arg.is_equals():
-        return eval_const_expr(t.arg.arg1) != eval_const_expr(t.arg.arg)
+        return compare_const_expr(t.arg.arg1, t.arg.arg) in (-1, 1)
     elif t.is_greater_eq():
-        return eval_const_expr(t.arg1) >= eval_const_expr(t.arg)
+        return compare_const_expr(t.arg1, t.arg) in (0, 1)
     elif t.is_greater():
-        return eval_const_expr(t.arg1) > eval_const_expr(t.arg)
+        return compare_const_expr(t.arg1, t.arg) == 1
     elif t.is_less_eq():
-        return eval_const_expr(t.arg1) <= eval_const_expr(t.arg)
+        return compare_const_expr(t.arg1, t.arg) in (-1, 0)
     elif t.is_less():
-        return eval_const_expr(t.arg1) < eval_const_expr(t.arg)
+        return compare_const_expr(t.arg1, t.arg) == -1
     else:
         raise NotImplementedError
 
